@@ -9,6 +9,7 @@ import (
 
 	"github.com/kelindar/bitmap"
 	"github.com/kelindar/column/commit"
+	"github.com/kelindar/intmap"
 	"github.com/kelindar/iostream"
 )
 
@@ -1000,7 +1001,7 @@ func vLoopReadStateBuffers(txn *Txn) {
 //@ contract target=column.(*txnPool).acquirePage use verify=no
 func vContractAcquirePage(p *txnPool, columnName string) (b *commit.Buffer) {
 	b = p.acquirePage(columnName)
-	vEnsures("fresh-buffer", b != nil && vFresh(b))
+	vEnsures("fresh-buffer", b != nil && vFresh(b) && b.IsEmpty() && b.Column == columnName)
 	return
 }
 
@@ -1199,4 +1200,159 @@ func vLemmaReplayOnlyItsBlock(owner *Collection, chunk commit.Chunk, updates []*
 	vLogCount = 0
 	txn.commit()
 	vAssert("only-block(change.Chunk)", vLogCount == 0 || vLogLastChk == chunk)
+}
+
+// ---------------------------------------------------------------------------------------------
+// Known findings (section 7 of DESIGN.md): clauses taken from the property statements that the pinned design does not
+// satisfy. They are kept as obligations so that they are reported (KNOWN-FINDING) rather than silently absent, and
+// so that a different violation of the same property still fails an unexcused clause.
+
+// D3 (C02): a rolled-back transaction leaves no trace - in particular the offset a successful insert reserved is free
+// again after rollback.
+//
+//@ lemma props=C02 real=column.(*Txn).rollback
+func vLemmaRollbackFreesReserved(owner *Collection) {
+	vAssume(owner != nil && vNothingHeld() && owner.count < 1<<40)
+	vCol = owner
+	txn := &Txn{owner: owner}
+	idx := owner.next() // what a successful insert reserves
+	txn.rollback()
+	vAssert("live-restored", int(idx>>6) >= len(owner.fill) || !vBit(owner.fill, idx))
+}
+
+// D4 (C02, C11): an insert whose callback fails leaves no marker behind in the transaction.
+//
+//@ lemma props=C02,C11 real=column.(*Txn).insert,column.(*Txn).bufferFor
+func vLemmaFailedInsertLeavesNoMarker(owner *Collection) {
+	vAssume(owner != nil && owner.txns != nil && vNothingHeld() && owner.count < 1<<40 && len(owner.fill) < 1<<24)
+	vCol = owner
+	txn := &Txn{owner: owner, updates: make([]*commit.Buffer, 0, 4)}
+	_, err := txn.insert(func(Row) error { return nil }, 0) // QueryAt is under its (assumed) contract: it may fail
+	if err != nil {
+		vAssert("error=>buffers-unchanged", len(txn.updates) == 0 || txn.updates[0].IsEmpty())
+	}
+}
+
+// D16b (C12): at most one row per key - a second InsertKey of the same key in the same transaction must fail.
+//
+//@ lemma props=C12
+func vLemmaInsertKeyTwiceInOneTransaction(owner *Collection, key string) {
+	vAssume(owner != nil && owner.pk != nil && owner.pk.seek != nil && vNothingHeld())
+	delete(owner.pk.seek, key)
+	txn := &Txn{owner: owner}
+	fn := func(Row) error { return nil }
+	first := txn.InsertKey(key, fn)
+	second := txn.InsertKey(key, fn)
+	vAssert("unique-within-transaction", first != nil || second != nil)
+}
+
+// C04 (aggregates; ★D11 repaired): each aggregate hands the kernel the block's values and exactly the selected rows
+// THAT HOLD A VALUE (selection AND presence bits of the block), leaves the selection itself untouched, and folds the
+// kernel's result into the running aggregate correctly. What the kernels compute is an assumed contract (bitmap.Sum/
+// Min/Max, SIMD code outside the subset). The generic bodies are checked in their int64 instantiation.
+func vAggSetup(chs chunks[int64], chunk commit.Chunk, index []uint64) rdNumber[int64] {
+	vAssume(int(chunk) < len(chs) && len(chs[chunk].fill) == chunkSize/64 && len(chs[chunk].data) == chunkSize && len(index) <= chunkSize/64)
+	vAssume(vDistinctBacking(index, chs[chunk].fill))
+	vKernelCalls = 0
+	return rdNumber[int64]{reader: &numericColumn[int64]{chunks: chs}, txn: &Txn{}}
+}
+
+func vAggFilterOK(chs chunks[int64], chunk commit.Chunk, index, index0 []uint64) {
+	fill := chs[chunk].fill
+	vAssert("kernel-called-once", vKernelCalls == 1)
+	vAssert("over-block-values", vSameSlice(vKernelData, chs[chunk].data))
+	vAssert("filter-length", len(vKernelFilter) == len(index))
+	vAssert("over-selected-and-present-only", vForall(0, len(vKernelFilter), func(w int) bool { return vKernelFilter[w] == index0[w]&fill[w] }))
+	vAssert("selection-untouched", vForall(0, len(index), func(w int) bool { return index[w] == index0[w] }))
+}
+
+//@ lemma props=C04
+func vLemmaSumOverPresentOnly(chs chunks[int64], chunk commit.Chunk, index []uint64, sum0 int64) {
+	s := vAggSetup(chs, chunk, index)
+	index0 := append([]uint64(nil), index...)
+	sum := sum0
+	var scratch bitmap.Bitmap
+	vCallAnon("column.(rdNumber[int64]).Sum[int64]$1", []any{"s", &s, "sum", &sum, "scratch", &scratch}, chunk, bitmap.Bitmap(index))
+	vAggFilterOK(chs, chunk, index, index0)
+	vAssert("sum-accumulates", sum == sum0+vKernelValue)
+}
+
+//@ lemma props=C04
+func vLemmaAvgOverPresentOnly(chs chunks[int64], chunk commit.Chunk, index []uint64, sum0 int64, ct0 int) {
+	s := vAggSetup(chs, chunk, index)
+	vAssume(ct0 >= 0 && ct0 < 1<<40)
+	index0 := append([]uint64(nil), index...)
+	sum, ct := sum0, ct0
+	var scratch bitmap.Bitmap
+	vCountOf = nil
+	vCallAnon("column.(rdNumber[int64]).Avg[int64]$1", []any{"s", &s, "sum", &sum, "ct", &ct, "scratch", &scratch}, chunk, bitmap.Bitmap(index))
+	vAggFilterOK(chs, chunk, index, index0)
+	vAssert("sum-accumulates", sum == sum0+vKernelValue)
+	vAssert("count-over-same-rows", vSameSlice(vCountOf, vKernelFilter) && ct == ct0+vLastCount)
+}
+
+//@ lemma props=C04
+func vLemmaMinOverPresentOnly(chs chunks[int64], chunk commit.Chunk, index []uint64, min0 int64, ok0 bool) {
+	s := vAggSetup(chs, chunk, index)
+	index0 := append([]uint64(nil), index...)
+	min, ok := min0, ok0
+	var scratch bitmap.Bitmap
+	vCallAnon("column.(rdNumber[int64]).Min[int64]$1", []any{"s", &s, "min", &min, "ok", &ok, "scratch", &scratch}, chunk, bitmap.Bitmap(index))
+	vAggFilterOK(chs, chunk, index, index0)
+	// fold: the running minimum over the blocks seen so far
+	switch {
+	case !vKernelHit:
+		vAssert("min:no-hit-keeps", min == min0 && ok == ok0)
+	case !ok0:
+		vAssert("min:first-hit-takes", min == vKernelValue && ok)
+	default:
+		vAssert("min:smaller-of-both", ok && ((vKernelValue < min0 && min == vKernelValue) || (vKernelValue >= min0 && min == min0)))
+	}
+}
+
+//@ lemma props=C04
+func vLemmaMaxOverPresentOnly(chs chunks[int64], chunk commit.Chunk, index []uint64, max0 int64, ok0 bool) {
+	s := vAggSetup(chs, chunk, index)
+	index0 := append([]uint64(nil), index...)
+	max, ok := max0, ok0
+	var scratch bitmap.Bitmap
+	vCallAnon("column.(rdNumber[int64]).Max[int64]$1", []any{"s", &s, "max", &max, "ok", &ok, "scratch", &scratch}, chunk, bitmap.Bitmap(index))
+	vAggFilterOK(chs, chunk, index, index0)
+	switch {
+	case !vKernelHit:
+		vAssert("max:no-hit-keeps", max == max0 && ok == ok0)
+	case !ok0:
+		vAssert("max:first-hit-takes", max == vKernelValue && ok)
+	default:
+		vAssert("max:larger-of-both", ok && ((vKernelValue > max0 && max == vKernelValue) || (vKernelValue <= max0 && max == max0)))
+	}
+}
+
+// D6 (C01): the location an enum value is interned at holds exactly that value.
+//
+//@ lemma props=C01
+func vLemmaEnumInterned(names []string, v []byte) {
+	vAssume(len(names) < 1<<20 && vIntmap != nil)
+	// table invariant: every known hash points at an existing location
+	c := &columnEnum{data: names, seek: new(intmap.Sync)}
+	at := c.findOrAdd(v)
+	if int(at) < len(c.data) { // (the table invariant "every stored location exists" is not part of this clause)
+		got := c.data[at]
+		vAssert("interned", len(got) == len(v) && vForall(0, len(v), func(i int) bool { return got[i] == v[i] }))
+	}
+}
+
+// D17 (C18, C10): values read inside an Ascend callback are read under the read latch of the row's block.
+//
+//@ lemma props=C18,C10
+func vLemmaAscendHoldsLatch(owner *Collection, index []uint64, name string) {
+	vAssume(owner != nil && owner.slock != nil && vNothingHeld() && len(index) <= 1<<25)
+	vCol = owner
+	txn := &Txn{owner: owner, index: index, setup: true}
+	txn.Ascend(name, func(idx uint32) {
+		vAssert("cursor-on-row", txn.cursor == idx)
+		vAssert("row-selected", int(idx>>6) < len(index) && vBit(index, idx))
+		vAssert("latch-of-row-block-held", vLatchR[uint(commit.ChunkAt(idx))%128] > 0)
+	})
+	vAssert("released", vNothingHeld())
 }
